@@ -213,3 +213,101 @@ class ClientRig:
 
     def close_rig(self):
         self.C.reactor = self._saved_reactor
+
+
+# ---------------------------------------------------------------------------
+# the built-in bus with raw scripted clients
+
+class RawClient:
+    """What a peer of the bus sees: handshake lines and reference-decoded messages."""
+
+    def __init__(self, rig, proto):
+        self.rig = rig
+        self.proto = proto              # the bus-side BusProtocol
+        self.transport = proto.transport
+        self.inbox = []                 # decoded messages received from the bus, in order
+        self.name = None
+        self.serial = 0
+        self._buf = b''
+        self.connected = True
+
+    def pump(self):
+        """Decode what the bus wrote to this client since the last call."""
+        from . import refcodec as R
+        self._buf += self.transport.take()
+        new = []
+        while len(self._buf) >= 16 and len(self._buf) >= R.message_length(self._buf[:16]):
+            n = R.message_length(self._buf[:16])
+            d = R.decode_message(self._buf[:n])
+            d['raw'] = self._buf[:n]
+            self._buf = self._buf[n:]
+            new.append(d)
+        self.inbox.extend(new)
+        return new
+
+    def send(self, mtype, fields, sig='', trees=(), flags=0, little=True, serial=None):
+        """Send one message; returns its serial."""
+        from . import refcodec as R
+        if serial is None:
+            self.serial += 1
+            serial = self.serial
+        raw = R.encode_message(mtype, serial, fields, sig, list(trees), little=little, flags=flags)
+        deliver(self.proto, raw)
+        return serial
+
+    def call_bus(self, member, sig='', trees=(), path='/org/freedesktop/DBus'):
+        """Method call to org.freedesktop.DBus; returns the decoded reply (or None)."""
+        s = self.send(1, {1: path, 2: 'org.freedesktop.DBus', 3: member, 6: 'org.freedesktop.DBus'}, sig, trees)
+        self.rig.pump_all()
+        for m in self.inbox:
+            if m['type'] in (2, 3) and m['fields'].get(5) == s:
+                return m
+        return None
+
+    def disconnect(self):
+        if self.connected:
+            self.connected = False
+            close(self.proto)
+
+
+class BusRig:
+    def __init__(self):
+        import txdbus.protocol as P
+        from txdbus import bus as B
+        P._is_linux = False
+        self.B = B
+        self.bus = B.Bus()
+
+        class _Factory:
+            pass
+        self.factory = _Factory()
+        self.factory.bus = self.bus
+        self.clients = []
+
+    def new_protocol(self, transport=None):
+        p = self.B.BusProtocol()
+        p.factory = self.factory
+        p.makeConnection(transport or FakeTransport())
+        return p
+
+    def attach(self, hello=True):
+        p = self.new_protocol()
+        c = RawClient(self, p)
+        deliver(p, b'\0AUTH ANONYMOUS 7665726966\r\n')
+        out = p.transport.take()
+        if not out.startswith(b'OK '):
+            raise RigFailure('bus answered AUTH ANONYMOUS with %r' % out)
+        deliver(p, b'BEGIN\r\n')
+        self.clients.append(c)
+        if hello:
+            r = c.call_bus('Hello')
+            if r is None or r['type'] != 2 or not r['body'] or not isinstance(r['body'][0], str):
+                raise RigFailure('Hello was answered with %r' % (r,))
+            c.name = r['body'][0]
+            c.inbox.remove(r)
+        return c
+
+    def pump_all(self):
+        for c in self.clients:
+            if c.connected or c.transport.peek():
+                c.pump()
